@@ -127,6 +127,21 @@ def _zstd_content_size(data: bytes) -> int | None:
     return int(size)
 
 
+def _decompress_whole_zstd_frame(data: bytes) -> bytes:
+    """Decompress one zstd frame of unknown size, refusing input that ends mid-frame.
+
+    The streaming reader returns whatever it could decode when the input runs
+    out, so a truncated frame would otherwise pass as a shorter payload.
+    """
+    import zstandard
+
+    dobj = zstandard.ZstdDecompressor().decompressobj()
+    out = dobj.decompress(data)
+    if not dobj.eof:
+        raise DecompressionError("Truncated zstd frame: input ended before the end of the frame")
+    return out
+
+
 def _decompress_body_zstd(data: bytes, *, max_output_size: int | None = None) -> bytes:
     """Decompress zstd-compressed *data* with optional output cap.
 
@@ -140,8 +155,7 @@ def _decompress_body_zstd(data: bytes, *, max_output_size: int | None = None) ->
         # No declared size => a streaming frame; the one-shot API refuses those.
         # The streaming reader handles both kinds.
         if declared is None:
-            with zstandard.ZstdDecompressor().stream_reader(data) as reader:
-                return reader.read()
+            return _decompress_whole_zstd_frame(data)
         return zstandard.ZstdDecompressor().decompress(data)
 
     # Refuse the frame up-front when the header claims more than allowed.
@@ -166,6 +180,10 @@ def _decompress_body_zstd(data: bytes, *, max_output_size: int | None = None) ->
             if total > max_output_size:
                 raise DecompressionLimitExceeded(f"Decompressed output exceeds max_output_size={max_output_size}")
             chunks.append(chunk)
+    # The reader cannot tell "frame complete" from "input ran out".  The loop
+    # above proved this input inflates to at most ``max_output_size`` bytes, so
+    # it is now safe to ask a decompressobj whether the frame really ended.
+    _decompress_whole_zstd_frame(data)
     return b"".join(chunks)
 
 
